@@ -125,6 +125,18 @@ def run(ctx):
     ctx.rep.count("entry_x_propagator_runs", n_runs)
     ctx.rep.count("read_sites_judged", n_reads)
     ts0(ctx, entries)
+    # the refreshed overlap is an overlap with *a* trial: it is coherent only if that is the trial the steps divide by
+    from ..rules import entries as ent
+    for eq in entries:
+        fi = p.func(eq)
+        if not fi.name.startswith("propagate_phaseless"):
+            continue
+        sk = ent.skeleton(p, fi)
+        if not sk.ok_shape:
+            continue
+        ctx.ob("TS-3", f"{eq}: the entry refresh evaluates the overlap with the wave_data the blocks propagate with",
+               sk.wd_consistent, "; ".join(q for q in sk.problems if "wave_data" in q) or "one wave_data term reaches "
+               "calc_overlap, the intermediates and the block function", fi)
     ctx.rep.trust("trial.calc_overlap(w) is the overlap of w (C01)",
                   "lax.scan semantics; trip counts named by sampler/propagator fields are >= 1")
     ctx.rep.assume("loop trip counts n_prop_steps, n_ene_blocks, n_sr_blocks, n_blocks, norb, "
